@@ -10,6 +10,9 @@ pub(crate) mod vx {
     pub(crate) mod bfs {
         include!(concat!(env!("OSRG_RUSTYBGP_VERIF_DIR"), "/lib/vx/bfs.rs"));
     }
+    pub(crate) mod sched {
+        include!(concat!(env!("OSRG_RUSTYBGP_VERIF_DIR"), "/lib/vx/sched.rs"));
+    }
     pub(crate) mod enumr {
         include!(concat!(env!("OSRG_RUSTYBGP_VERIF_DIR"), "/lib/vx/enumr.rs"));
     }
@@ -32,6 +35,7 @@ fn verif_entry() {
         "c16" => crate::event::verif_event::c16::run(replay),
         "c18" => crate::event::verif_event::c18::run(replay),
         "c20" => crate::event::verif_event::c20::run(replay),
+        "c19" => crate::event::verif_event::c19::run(replay),
         "c13" => crate::rpki::verif_rpki::run_c13(replay),
         "" => {
             eprintln!("verif_entry: VERIF_PART not set; nothing to do");
